@@ -279,7 +279,7 @@ def cmd_checks(only=None):
     resf = OUT / "results.json"
     results = json.loads(resf.read_text()) if resf.exists() else {}
     todo = [(allm[s["id"]],) for s in surv if s["id"] not in results and (not only or only in s["id"])]
-    with mp.get_context("fork").Pool(4) as pool:
+    with mp.get_context("fork").Pool(int(os.environ.get("AUTOMUT_POOL", "4"))) as pool:
         for mid, r in pool.imap_unordered(_check_one, todo, chunksize=1):
             results[mid] = r
             resf.write_text(json.dumps(results, indent=1))
